@@ -3,6 +3,7 @@
 package engine
 
 import (
+	"github.com/KevoDB/kevo/pkg/config"
 	"github.com/KevoDB/kevo/pkg/engine/interfaces"
 	"github.com/KevoDB/kevo/pkg/engine/storage"
 )
@@ -16,4 +17,9 @@ func (e *EngineFacade) VerifStorage() *storage.Manager {
 // VerifCompaction exposes the compaction manager to the verification harness.
 func (e *EngineFacade) VerifCompaction() interfaces.CompactionManager {
 	return e.compaction
+}
+
+// VerifConfig exposes the configuration the engine was opened with.
+func (e *EngineFacade) VerifConfig() *config.Config {
+	return e.cfg
 }
